@@ -207,6 +207,16 @@ class Harness:
         ob.status, ob.res, ob.detail = 'pending', None, ''
         return False
 
+    def path_infeasible(self, name, hyps, timeout=6):
+        """synchronous feasibility query for a path the explorer could not prune within its own budget: True iff the hypotheses are
+        unsatisfiable (the path does not exist; the harness then states no obligations on it).  Recorded as a note."""
+        r = _solve.solve(_smt2(hyps, z3.BoolVal(True)), timeout, False, ('default',))
+        self.solver_time += r.get('time', 0)
+        if r['result'] == 'unsat':
+            self.notes.append('%s: infeasible path (hypotheses unsatisfiable), no obligations stated' % name)
+            return True
+        return False
+
     def prove_eqs(self, name, hyps, lhs, rhs, **kw):
         """componentwise equality obligations; neg_margin asks for a witness with visible margin"""
         obs = []
